@@ -37,6 +37,9 @@ TMerge ==
     /\ l <= Len(Rec)
     /\ Rec[l].ev = "Merge"
     /\ Chk("C05", "merge_verdict_is_machine_outcome", l, Rec[l].verdict = outcome)
+    \* the order-free statement of the same verdict: whether two of the lists share a name does not depend on how they are ordered
+    /\ Chk("C14", "acceptance_does_not_depend_on_the_order_of_the_parts", l,
+           (\A i \in 1..Len(Rec[l].lists) : IsSortedStrict(Rec[l].lists[i])) => Rec[l].verdict = Verdict(Rec[l].lists))
     /\ l' = l + 1
     /\ TLCSet(1, l + 1)
     /\ Load(l + 1)
